@@ -18,3 +18,10 @@ _glue_part("C20", "C20glue",
      ["glue: the searching player is an oracle with the C04 contract (a legal move on a live position): with the real searcher only the legality of its answer is compared",
       "glue: the clock is reached through token rewrites of friendly.go / taktician.go at harness build time (harness/rewrite/playtak_friendly.json, playtak_taktician.json: time.After, context.WithDeadline, context.WithTimeout and waitUndo's two f.check.Analyze calls go through package functions that record the requested duration / supply the verdict when the context carries the harness' recorder); the real waits (5 s, 30 s, 1 min) are not exercised",
       "glue: GetMove is called sequentially on a quiescent record; concurrent mutation of the record by the protocol goroutine while a thinker reads it is outside the model (C07's lock-step assumption)"])
+
+_glue_part("C07", "C07glue",
+     "GLUE (sampled): the two Bot implementations the loop is run with, as thinkers - the real Friendly.GetMove without FPA rule and Taktician.GetMove on game records "
+     "(sizes 3..6, bot White/Black/observer, every ply incl. 0 and 1, undos, calls for a thinker whose position is no longer the newest or was undone): "
+     "commands sent from inside GetMove (none), whether and on which position the searching player is asked, the deadline put on its context (Taktician: 20 s for plies 0-1, then -limit; none when pondering; "
+     "off turn without -use-opponent-time: zero move at once), Friendly's reply-time floor and search deadline, the returned move = the searcher's answer and its legality",
+     ["glue: see C20 (the searching player is an oracle with the C04 contract; clocks observed through the build-time seams harness/rewrite/playtak_friendly.json, playtak_taktician.json; GetMove called sequentially on a quiescent record)"])
